@@ -22,6 +22,14 @@ def run(tier):
                 n += 1
     rep.floor("username pipelines extracted", n, 4)
     profiles.normalizer_shape(prog, rep, "normalization_form_nfc", "nfc")
+    # the directionality step is `has_rtl(s) ? Bidi rule : ok`; when it applies is part of "all rules, in order"
+    # (the Bidi rule's own language is C09)
+    from . import C09
+
+    sub = Report("C09", tier, "directionality wrapper")
+    C09.has_rtl_set(prog, sub)
+    C09.directionality_table(prog, sub)
+    rep.include(sub, "C09")
     rep.extra["exhaustive"] = True
     rep.assumptions += ["the leaf rules' own semantics are decided by C09 (directionality), C10 (case), C11 (width), C02/C14 (IdentifierClass)"]
     return rep
